@@ -40,8 +40,10 @@ def check(run: Run) -> None:
     ctx = TermCtx(m, max_depth=2, opaque={"parse_as_ast", "resolve_syntatic_sugar", "remap_from_lambda", "check_ast", "as_ast", "unwrap_iterable", "clone_with_new_ast"})
     os_cls = m.find_class("ObjectStream", in_module="func_adl.object_stream")
     canon_terms = {}
+    from ..lib import view
+
     for op in ("Select", "SelectMany", "Where"):
-        fi = os_cls.methods.get(op)
+        fi = view(m, os_cls.methods.get(op))
         if fi is None:
             raise AnalysisError(f"anchor vanished: ObjectStream.{op}")
         fa = ctx.analysis(fi)
